@@ -45,7 +45,7 @@ static std::string oracle(const Case& c) {
     std::string msg;
     // --- entry point 1: create
     {
-        unsigned arg = f | (c.u("hi") ? 0xFFFFFFE0u : 0u); k.rand_bytes.assign(sv.begin(), sv.end()); k.rand_pos = 0; k.clock = model::birthday_time(ms.birthday);
+        unsigned arg = f | (c.u("hi") ? 0xFFFFFFE0u : 0u); k.rand_bytes.assign(sv.begin(), sv.end()); k.rand_pos = 0; k.clock = c.u("late") ? model::EPOCH + (1024 + c.u("late")) * model::STEP + 5 : model::birthday_time(ms.birthday);   // "late": a clock beyond the 1024-month range must not disturb the feature bits either
         polyseed_data* s = nullptr; int st = polyseed_create(arg, &s); bool cok = ((f & 7u) & ~m) == 0;
         if (cok) { if (st != 0) return "create(" + std::to_string(arg) + ") under mask " + std::to_string(m) + " returned " + model::status_name(st); msg = check_seed(s, f & 7u, "create"); 
             if (msg.empty()) { // crypt flips only bit 4; features survive phrase / storage round trips
@@ -102,7 +102,7 @@ static void run() {
         int n = *in_range<int>(1, 7); std::string calls;
         for (int i = 0; i < n; i++) calls += le32s(*rc::gen::weightedOneOf<unsigned>({{5, in_range<unsigned>(0, 8)}, {1, rc::gen::map(vf::u64(), [](uint64_t x) { return (unsigned)x; })}, {1, rc::gen::map(in_range<unsigned>(0, 8), [](unsigned x) { return x | 0xFFFFFFF8u; })}}));
         Case c; c.set("calls", hex(calls)); c.set("f", *in_range<unsigned>(0, 32)); c.set("hi", *in_range<unsigned>(0, 2)); c.set("secret", hex(*g::secret19())); c.set("birthday", (uint64_t)*g::birthday()); c.set("coin", (uint64_t)*g::coin());
-        c.set("lang", REG->at(*g::lang_index()).name_en); c.set("badcheck", *in_range<unsigned>(0, 2)); if (*in_range<int>(0, 32) == 0) c.set("reinject", 1);
+        c.set("lang", REG->at(*g::lang_index()).name_en); c.set("badcheck", *in_range<unsigned>(0, 2)); if (*in_range<int>(0, 32) == 0) c.set("reinject", 1); if (*in_range<int>(0, 8) == 0) c.set("late", *in_range<unsigned>(0, 3000));
         set_current(c); std::string m = oracle(c); if (!m.empty()) VF_FAIL(c, m);
     });
 }
